@@ -93,6 +93,14 @@ let eval_edit fn args : string option =
       (match ops_of_tokens toks with
        | Some ops -> Some (obs_edit (bytes_of_hex img) ops)
        | None -> None)
+    | "editvalid", img :: toks ->
+      (match ops_of_tokens toks with
+       | Some ops ->
+         let o = obs_edit (bytes_of_hex img) ops in
+         if String.length o >= 3 && String.sub o 0 3 = "ok " then
+           Some (if valid_image depth (bytes_of_hex (String.sub o 3 (String.length o - 3))) then "ok 1" else "ok 0")
+         else Some o
+       | None -> None)
     | "find", [img; fvp; arg] -> Some (obs_find (bytes_of_hex img) (fvp = "1") (bytes_of_hex arg))
     | "valid", [img] ->
       Some (if valid_image depth (bytes_of_hex img) then "ok 1" else "ok 0")
